@@ -35,7 +35,8 @@ RULE = (
 MUST_HIT = ["timeout_between_messages", "observer_busy_at_stop_marker", "zero_detections", "with_stream_saver",
             "free_running_validation", "three_observers", "tokenizer_started_before_some_observer", "queue_backlog_ge_64",
             "command_observer_many_detections", "player_observer", "real_lazy_file_source", "two_pipelines_side_by_side",
-            "saver_name_without_wav_extension"]
+            "saver_name_without_wav_extension", "relative_file_names", "hundreds_of_consecutive_timeouts",
+            "validator_object_passed_to_worker", "clock_at_end_of_second"]
 ASSUMPTIONS = [
     "interleavings are explored at the granularity of queue operations, source reads, observer callbacks, thread start/exit and joins (DESIGN 3.4)",
     "liveness judged under the harness's fair continuation after the generated prefix",
@@ -52,6 +53,18 @@ def judge_threads(run, case):
         raise Violation(
             ("deadlock: " if kind == "deadlock" else "threads did not terminate: ") + text, case)
     for name, exc, tb in run.thread_errors:
+        if isinstance(exc, RecursionError):
+            # the stack overflowed wherever it happened to be; who built the stack decides
+            import traceback as _tb
+
+            from ..common import REPO
+
+            frames = _tb.extract_tb(exc.__traceback__)
+            repo_frames = [f for f in frames if os.path.abspath(f.filename).startswith(REPO + os.sep)]
+            if len(repo_frames) > 100:
+                raise Violation(
+                    f"RecursionError in thread {name}: {len(repo_frames)} nested library frames "
+                    f"(e.g. {os.path.relpath(repo_frames[-1].filename, REPO)}:{repo_frames[-1].lineno})", case)
         who, where = _blame(exc)
         if who == "repo":
             raise Violation(f"uncaught {type(exc).__name__}: {exc} in thread {name} at {where}", case)
@@ -223,6 +236,14 @@ def check_case(case, rec):
             classes.add("real_lazy_file_source")
         if case.get("twin"):
             classes.add("two_pipelines_side_by_side")
+        if case.get("relative"):
+            classes.add("relative_file_names")
+        if case.get("idle_storm") and run.sched.timeouts >= 500:
+            classes.add("hundreds_of_consecutive_timeouts")
+        if (case.get("tok_spell") or {}).get("validator"):
+            classes.add("validator_object_passed_to_worker")
+        if case.get("clock_us") is not None and case["clock_us"] >= 999500:
+            classes.add("clock_at_end_of_second")
         if case.get("saver") and case["saver"].get("ext", ".wav") != ".wav":
             classes.add("saver_name_without_wav_extension")
         if case.get("saver") and len(run.data) // (run.src.sw * run.src.ch) > 65536:
@@ -290,6 +311,11 @@ def explicit_cases():
          "joiner_ext": ".raw", "join_sil": [2, 0], "src_kind": "wav_lazy", "twin": True, "choices": [0, 1, 2, 3, 4, 5, 6] * 40},
         {"audio": a, "win": [2, 4, 1, False, False], "saver": {"cache": 100.0, "ext": ".raw"}, "observers": ["rec"],
          "src_kind": "raw_lazy", "twin": True, "choices": [-1] * 60 + [3, 1, 0] * 30},
+        {"audio": a, "win": [2, 4, 1, False, False], "saver": {"cache": 0.03, "ext": ""}, "observers": ["rec", "regsave", "joiner"],
+         "tmpl": "det_{id}_{start:.3f}-{end:.3f}", "ext": "wav", "joiner_ext": ".raw", "join_sil": [1, 0], "relative": True,
+         "clock_us": 999999, "tok_spell": {"validator": "val"}, "choices": [-1] * 12 + [1, 2, 3, 0] * 30},
+        {"audio": a, "win": [2, 4, 1, False, False], "saver": None, "observers": ["rec", "print"], "clock_us": 999612,
+         "tok_spell": {"eth": "eth", "uc": "uc"}, "choices": [0] * 900, "idle_storm": True},
         {"audio": a, "win": [2, 4, 1, False, False], "saver": None, "observers": ["rec", "rec", "print"],
          "choices": [-1] * 30 + [0, 1, 2] * 20, "start": "tokenizer_first"},
         {"audio": dict(a, B=1, pat="10" * 60, tail=[0, 0]), "win": [1, 1, 0, False, False], "saver": None,
@@ -330,9 +356,18 @@ def strategy(draw, maxwin, free=False):
         c["saver"]["ext"] = draw(st.sampled_from([".wav", ".wav", "", ".raw"]))
     c["joiner_ext"] = draw(st.sampled_from([".wav", ".wav", "", ".raw"]))
     c["twin"] = draw(rarely(8))
+    c["relative"] = draw(rarely(6))
+    c["clock_us"] = draw(st.one_of(st.none(), st.sampled_from([0, 1, 499, 500, 999499, 999500, 999999]), st.integers(0, 999999)))
+    c["tok_spell"] = draw(st.sampled_from([{}, {}, {"eth": "eth"}, {"uc": "uc"}, {"eth": "eth", "uc": "uc"},
+                                           {"validator": "validator"}, {"validator": "val"}]))
+    if draw(rarely(25)):
+        # one consumer's queue wait times out hundreds of times in a row before anything arrives
+        c["choices"] = [0] * draw(st.integers(600, 1300)) + c["choices"][:100]
+        c["idle_storm"] = True
     if c["saver"] and draw(rarely(60)):
         # more than 2**16 frames recorded and exported headerless
-        c["audio"].update(B=4096, sw=2, tail=[0, 0], pat="".join(draw(st.lists(st.sampled_from("01"), min_size=17, max_size=20))))
+        c["audio"].update(B=4096, sw=2, tail=[0, 0], pat="".join(draw(st.lists(st.sampled_from("01"), min_size=8, max_size=24))))
+        c["saver"]["cache"] = draw(st.sampled_from([1000.0, 1000.0, 8 * 4096 / c["audio"]["sr"], c["saver"]["cache"]]))
         c["audio"]["al"] = min(max(c["audio"]["al"], 100), 16000)
         if c["audio"].get("thr0"):
             c["audio"]["al"] = min(c["audio"]["al"], 60)
